@@ -598,13 +598,13 @@ def sweep() -> list[dict[str, Any]]:
     def add(kind: str, text: str, nouse: tuple[str, ...] = (), complete: bool = False,
             extra: dict[str, Any] | None = None, delete: list[tuple] | None = None,
             both: bool = False, shape: tuple[str, str] | None = None,
-            mode: str | None = None) -> None:
+            mode: str | None = None, empty: bool = False) -> None:
         key = text + "\x00" + repr(sorted((extra or {}).items())) + repr(delete) + repr(shape)
         if key not in seen:
             seen.add(key)
             out.append({"kind": kind, "src": text, "nouse": nouse, "complete": complete,
                         "extra": extra or {}, "delete": delete or [], "both": both,
-                        "shape": shape, "mode": mode})
+                        "shape": shape, "mode": mode, "empty": empty})
 
     # no-use forms first: an identical text from the general forms must not shadow them
     for kind, tpl in NOUSE:
@@ -646,6 +646,12 @@ def sweep() -> list[dict[str, Any]]:
         # ... and once more with the arrays / hashes in another shape
         add(kind, text, complete=True, shape=SHAPES[li % len(SHAPES)],
             mode="async" if li % 2 else "sync")
+    # scope-own variables in lambdas after the same filter was used outside
+    for kind, text in lambda_scope_programs(PARTIALS):
+        add(kind, text, complete=True, both=True)
+    # no data at all
+    for kind, text in BOTTOM_FORMS:
+        add(kind, text, complete=True, both=True, empty=True)
     for kind, text in SHAPE_FORMS:
         for shape in SHAPES:
             add(kind, text, complete=True, both=True, shape=shape)
@@ -1083,3 +1089,117 @@ PARTIALS["p_row"] = "[{{ row.k }}:{{ row.v }}]"
 PARTIALS["p_item"] = "[{{ p_item.k }}:{{ p_item.v }}]"
 PARTIALS["p_rows"] = "[{% for r in rows %}{{ r.v }}{% endfor %}{{ rows.size }}{{ rows[0].k }}]"
 PARTIALS["p_rowloop"] = "[{{ forloop.index }}/{{ forloop.length }}:{{ row.v }}]"
+
+
+# ---------------------------------------------------------------------------------------
+# scope-own variables inside lambda filters: a variable that exists only in an inner
+# scope (macro parameter, render / include keyword argument or bound value, with block,
+# loop variable) is used inside the lambda of a context-aware filter there, after the
+# same filter name has been used in an outer / sibling scope.  Complete by construction.
+# ---------------------------------------------------------------------------------------
+# (filter, outer use, inner use with `items` and the scope's own `wanted` / `wkey`, tail)
+LAMBDA_SCOPE_FILTERS: list[tuple[str, str, str]] = [
+    ("where", "objs | where: p => p.t | size", "items | where: p => p.v == wanted | map: 'k' | join: ','"),
+    ("reject", "objs | reject: p => p.t | size", "items | reject: p => p.v == wanted | size"),
+    ("map", "objs | map: p => p.k | join: ','", "items | map: p => wanted | join: ','"),
+    ("find", "objs | find: p => p.k == 2 | size", "items | find: p => p.v == wanted | size"),
+    ("find_index", "objs | find_index: p => p.k == 2", "items | find_index: p => p.v == wanted"),
+    ("has", "objs | has: p => p.k == 2", "items | has: p => p.v == wanted"),
+    ("sort", "objs | sort: p => p.v | size", "items | sort: p => p[wkey] | map: 'k' | join: ','"),
+    ("sort_natural", "objs | sort_natural: p => p.v | size", "items | sort_natural: p => p[wkey] | size"),
+    ("sort_numeric", "objs | sort_numeric: p => p.k | size", "items | sort_numeric: p => p[wkey] | size"),
+    ("sum", "objs | sum: p => p.k", "items | sum: p => p[wkey]"),
+    ("uniq", "objs | uniq: p => p.v | size", "items | uniq: p => p[wkey] | size"),
+    ("compact", "objs | compact: p => p.v | size", "items | compact: p => p[wkey] | size"),
+]
+# {OUT} an outer use, {IN} the inner use, {PARTIAL} a partial whose body is [{{ IN }}]
+LAMBDA_SCOPES: list[tuple[str, str]] = [
+    ("macro", "{% macro sh items, wanted, wkey %}[{{ {IN} }}]{% endmacro %}{{ {OUT} }};{% call sh objs, 'x', 'k' %}{% call sh objs, 'y', 'k' %}"),
+    ("macro-kw", "{% macro sh items, wanted: 'x', wkey: 'k' %}[{{ {IN} }}]{% endmacro %}{{ {OUT} }};{% call sh objs %}{% call sh objs, wanted: 'y' %}"),
+    ("macro-first", "{% macro sh items, wanted, wkey %}[{{ {IN} }}]{% endmacro %}{% call sh objs, 'x', 'k' %};{{ {OUT} }};{% call sh objs, 'y', 'k' %}"),
+    ("render-kw", "{{ {OUT} }};{% render '{PARTIAL}', items: objs, wanted: 'x', wkey: 'k' %}{% render '{PARTIAL}', items: objs, wanted: 'y', wkey: 'k' %}"),
+    ("render-with", "{{ {OUT} }};{% render '{PARTIAL}' with 'x' as wanted, items: objs, wkey: 'k' %}"),
+    ("render-for", "{{ {OUT} }};{% render '{PARTIAL}' for user.tags as wanted, items: objs, wkey: 'k' %}"),
+    ("render-siblings", "{% render '{PARTIAL}', items: objs, wanted: 'x', wkey: 'k' %}{% render '{PARTIAL}', items: riches, wanted: 'y', wkey: 'n' %}"),
+    ("render-in-loop", "{% for w in user.tags %}{{ {OUT} }}{% render '{PARTIAL}', items: objs, wanted: w, wkey: 'k' %}{% endfor %}"),
+    ("render-nested", "{{ {OUT} }};{% render '{PARTIAL2}', things: objs %}"),
+    ("include-kw", "{{ {OUT} }};{% include '{PARTIAL}', items: objs, wanted: 'x', wkey: 'k' %}"),
+    ("include-for", "{{ {OUT} }};{% include '{PARTIAL}' for user.tags as wanted, items: objs, wkey: 'k' %}"),
+    ("with", "{{ {OUT} }};{% with items: objs, wanted: 'x', wkey: 'k' %}[{{ {IN} }}]{% endwith %}"),
+    ("for", "{{ {OUT} }};{% assign items = objs %}{% assign wkey = 'k' %}{% for wanted in user.tags %}[{{ {IN} }}]{% endfor %}"),
+    ("macro-in-render", "{{ {OUT} }};{% render '{PARTIAL3}', things: objs %}"),
+    ("call-in-loop", "{% macro sh items, wanted, wkey %}[{{ {IN} }}]{% endmacro %}{% for w in user.tags %}{{ {OUT} }}{% call sh objs, w, 'k' %}{% endfor %}"),
+]
+
+
+def lambda_scope_programs(partials: dict[str, str]) -> list[tuple[str, str]]:
+    out = []
+    for fname, outer, inner in LAMBDA_SCOPE_FILTERS:
+        body = "[{{ " + inner + " }}]"
+        p1 = _partial(body, partials)
+        p2 = _partial("{{ " + outer.replace("objs", "things") + " }}{% render '" + p1
+                      + "', items: things, wanted: 'x', wkey: 'k' %}", partials)
+        p3 = _partial("{% macro sh items, wanted, wkey %}" + body + "{% endmacro %}{{ "
+                      + outer.replace("objs", "things") + " }}{% call sh things, 'y', 'k' %}",
+                      partials)
+        for skind, tpl in LAMBDA_SCOPES:
+            text = (tpl.replace("{OUT}", outer).replace("{IN}", inner)
+                    .replace("{PARTIAL2}", p2).replace("{PARTIAL3}", p3).replace("{PARTIAL}", p1))
+            out.append((f"lambda-scope:{fname}/{skind}", text))
+    return out
+
+
+# ---------------------------------------------------------------------------------------
+# the bottom of the deletion lattice: NO data at all (render() without arguments, no
+# environment or template globals).  Every name these programs use is bound by a tag
+# from literals / ranges, so they are complete by construction with empty data.
+# ---------------------------------------------------------------------------------------
+PARTIALS["p_self"] = "[{{ p_self }}]"
+PARTIALS["greeting"] = "{{ greeting }}, {{ name | default: 'you' }}!"
+PARTIALS["p_self_loop"] = "[{{ forloop.index }}:{{ p_self_loop }}]"
+PARTIALS["p_nest"] = "<{% render 'p_use' with x as x %}{% render 'p_self' with x %}>"
+BOTTOM_FORMS: list[tuple[str, str]] = [
+    ("bottom:render-with-local", "{% assign greetings = \"Hello,Goodbye\" | split: \",\" %}{% render \"greeting\" with greetings.first %}"),
+    ("bottom:render-with-literal", "{% render 'p_self' with 'lit' %}{% render 'p_use' with 'lit' as x %}{% render 'p_self' with 42 %}"),
+    ("bottom:render-with-range", "{% render 'p_for' with (1..3) as x %}{% render 'p_self' with (1..2) %}"),
+    ("bottom:render-for-range", "{% render 'p_use' for (1..3) as x %}{% render 'p_self' for (1..2) %}{% render 'p_self_loop' for (1..2) %}"),
+    ("bottom:render-for-local", "{% assign a = 'x,y' | split: ',' %}{% render 'p_use' for a as x %}{% render 'p_self' for a %}"),
+    ("bottom:render-with-capture", "{% capture c %}cap{% endcapture %}{% render 'p_self' with c %}{% render 'p_use' with c as x %}"),
+    ("bottom:render-kw", "{% render 'p_use', x: 1 %}{% render 'p_default', x: 'v' %}{% render 'p_for', x: (1..2) %}"),
+    ("bottom:render-with-and-kw", "{% render 'p_use' with 'a' as x, y: 1 %}{% render 'p_self' with 'b', y: 2 %}"),
+    ("bottom:render-nested", "{% render 'p_nest' with 'n' as x %}{% render 'p_nest', x: 'm' %}"),
+    ("bottom:render-in-for", "{% for i in (1..2) %}{% render 'p_self' with i %}{% render 'p_use' with i as x %}{% endfor %}"),
+    ("bottom:render-in-with", "{% with v: 'w' %}{% render 'p_self' with v %}{% endwith %}"),
+    ("bottom:render-in-macro", "{% macro m a %}{% render 'p_self' with a %}{% render 'p_use' for (1..a) as x %}{% endmacro %}{% call m 2 %}"),
+    ("bottom:render-with-template-string", "{% assign n = 'N' %}{% render 'p_self' with \"x${n}y\" %}"),
+    ("bottom:render-with-filtered-local", "{% assign a = 'x,y' | split: ',' %}{% render 'p_self' with a.last %}{% render 'p_use' with a[0] as x %}{% render 'p_self' with a.size %}"),
+    ("bottom:include-with", "{% include 'p_self' with 'lit' %}{% include 'p_use' with 'lit' as x %}"),
+    ("bottom:include-for", "{% include 'p_use' for (1..3) as x %}{% include 'p_self' for (1..2) %}"),
+    ("bottom:include-kw", "{% include 'p_use', x: 1 %}{% include 'p_truthy', x: true %}"),
+    ("bottom:include-local", "{% assign a = 'x,y' | split: ',' %}{% include 'p_use' for a as x %}{% include 'p_self' with a.first %}"),
+    ("bottom:with", "{% with a: 1, b: 'x' %}{{ a }}{{ b }}{% endwith %}"),
+    ("bottom:for-range", "{% for x in (1..3) %}{{ x }}{{ forloop.index }}{% else %}-{% endfor %}"),
+    ("bottom:for-literals", "{% for x in 'a', 'b' %}{{ x }}{% endfor %}{% for x in (1..4) limit: 2 offset: 1 %}{{ x }}{% endfor %}"),
+    ("bottom:tablerow", "{% tablerow x in (1..4) cols: 2 %}{{ x }}{% endtablerow %}"),
+    ("bottom:macro", "{% macro m a, b: 2 %}[{{ a }}{{ b }}{{ args | size }}]{% endmacro %}{% call m 1 %}{% call m 1, 3, 4 %}"),
+    ("bottom:assign-capture", "{% assign v = 'x' | upcase %}{{ v }}{% capture c %}{{ v }}!{% endcapture %}{{ c }}"),
+    ("bottom:lambda", "{% assign a = 'x,y,x' | split: ',' %}{{ a | map: i => i | join: '-' }}{{ a | where: i => i == 'x' | size }}{% assign w = 'y' %}{{ a | find: i => i == w }}"),
+    ("bottom:lambda-in-render", "{% render 'p_lamb', items: (1..4), wanted: 2 %}"),
+    ("bottom:cycle-case", "{% for i in (1..3) %}{% cycle 'a', 'b' %}{% case i %}{% when 2 %}two{% else %}{{ i }}{% endcase %}{% endfor %}"),
+    ("bottom:ternary-template-string", "{% assign n = 3 %}{{ 'big' if n > 2 else 'small' }}{{ \"n=${n | plus: 1}\" }}"),
+    ("bottom:counters", "{% increment c %}{% increment c %}{{ c }}{% decrement d %}{{ d }}"),
+    ("bottom:translate", "{% translate who: 'you', count: 2 %}Hi %(who)s{% plural %}His %(who)s{% endtranslate %}{{ 'x %(a)s' | t: a: 1 }}"),
+    ("bottom:liquid-tag", "{% liquid\nassign v = 'q'\necho v\nrender 'p_self' with v\nfor i in (1..2)\necho i\nendfor %}"),
+    ("bottom:babel", "{{ 3 | currency }}{{ 1234.5 | decimal }}{{ 2 | unit: 'length-meter' }}"),
+    ("bottom:docs-greeting", "{% render 'greeting' with 'Hi' %}{% render 'greeting' for 'Hello,Bye' | split: ',' %}"),
+    ("bottom:if-literals", "{% if 1 < 2 and 'a' contains 'a' %}T{% endif %}{% unless false %}U{% endunless %}{{ nil | default: 'n' }}"),
+]
+PARTIALS["p_lamb"] = "[{{ items | where: i => i > wanted | join: ',' }}{{ items | map: i => wanted | first }}]"
+
+# literal-valued with / for on render / include (data present)
+STMTS.extend([
+    ("render-with-literal", "{% render 'p_self' with 'lit' %}{% render 'p_use' with {L} as x %}"),
+    ("render-for-range", "{% render 'p_use' for (1..3) as x %}{% render 'p_self' for (1..n) %}"),
+    ("include-with-literal", "{% include 'p_self' with 'lit' %}{% include 'p_use' for (1..idx) as x %}"),
+    ("render-with-local", "{% assign gs = \"Hello,Goodbye\" | split: \",\" %}{% render \"greeting\" with gs.first %}"),
+])
